@@ -153,6 +153,65 @@ class _SetLocation:
         }
 
 
+# ------------------------------------------------------------------------------------------------ parse(): line injection
+# The assumed contract of NodeVisitor.visit on the processor (pyvc/ext_expr.py, C13) is wrapped: an Error that leaves the
+# traversal remembers (ghost fields) the line it carried and the processor's line counter at that moment.
+from pyvc.libmodel import Lib as _Lib
+from pyvc.symexec import PyRaise as _PyRaise
+from pyvc.frontend import ClassInfo as _ClassInfo
+from pyvc.values import MutObjOf as _MutObjOf
+
+_orig_visit = _Lib.m_other_visit
+
+
+def _visit_with_ghost(self, ctx, o, tree):
+    try:
+        return _orig_visit(self, ctx, o, tree)
+    except _PyRaise as pr:
+        exc = pr.exc
+        if isinstance(exc.cls, _ClassInfo) and getattr(o, "fields", None) is not None:
+            exc.fields["__line_when_raised__"] = self.exc_attr(ctx, exc, "_line")
+            exc.fields["__processor_line_when_raised__"] = o.fields["_current_line_number"]
+        raise
+
+
+_Lib.m_other_visit = _visit_with_ghost
+
+
+@contract("pydsdl._parser._get_grammar", props=P)
+class _GetGrammarAssumed:
+    returns = _X.GrammarK
+    verify = False
+    assumed = "third party: the parsimonious Grammar object built from grammar.parsimonious (PEG semantics assumed)"
+
+
+def _line_known(ln):
+    if ln is None:
+        return False, 0
+    if isinstance(ln, int):
+        return ln != 0, ln
+    if isinstance(ln, z3.ExprRef):
+        return ln != 0, ln
+    return AND(NOT(IS_NONE(ln)), NOT(VAL(ln) == 0)), VAL(ln)
+
+
+def _parse_line_rule(s):
+    """An Error leaves parse() with a line: its own if it carried one when it left the traversal (a recursive instance
+    or the flush of a remembered statement), else the processor's current line; a syntax error carries the parser's."""
+    f = s.exc.fields
+    known, val = EXC_LINE(s.exc)
+    if "__processor_line_when_raised__" not in f:
+        return known
+    k0, v0 = _line_known(f["__line_when_raised__"])
+    return AND(known, val == ITE(k0, v0, f["__processor_line_when_raised__"]))
+
+
+@contract("pydsdl._parser.parse", props=P)
+class _ParseLocation:
+    params = dict(text=Str, statement_stream_processor=_MutObjOf(c03.DTB), strict=Bool)
+    raises_implies = {"InternalError": lambda s: EXC_LINE(s.exc)[0], "InvalidDefinitionError": _parse_line_rule}
+
+
 # ------------------------------------------------------------------------------------------------ native harness
 from pyvc.native import NativeSuite
 
@@ -180,8 +239,6 @@ def _build_loc(d):
 NATIVE.add(ERROR + ".set_error_location_if_unknown", _gen_loc, _build_loc)
 EXTRA_CHECKS = [c03.extra_whole_text_locations] if hasattr(c03, "extra_whole_text_locations") else []
 NOT_COVERED = [
-    "parse(): that the injected line is `pr.current_line_number` at the moment the exception leaves NodeVisitor.visit "
-    "(the vendored parsimonious wraps/unwraps exceptions; read, not put under contract)",
     "DSDLDefinition.read / _read_definitions: path injection `set_error_location_if_unknown(path=self.file_path)` (two call "
     "sites, read; the callee contract above shows a known path is never overwritten, so a dependency's error keeps the "
     "dependency's path)",
